@@ -179,6 +179,11 @@ class Emitter:
                 return ("opt", self.ty_of_ast(ty.args[0]))
             if name in ("Vec", "VecDeque", "ArrayVec") and ty.args:
                 return ("list", self.ty_of_ast(ty.args[0]))
+            if name == "Box" and ty.args:
+                return self.ty_of_ast(ty.args[0])     # Box<T> is T (ownership is not modelled)
+            if name == "Result" and ty.args and self.v.get("result"):
+                # io::Result<T> (vocabulary key `result`): the sum  T + <error type>
+                return ("res", self.ty_of_ast(ty.args[0]))
             if name in self.v.get("enums", {}):
                 return ("enum", name)
             if name in self.v.get("structs", {}):
@@ -208,6 +213,8 @@ class Emitter:
             return t[1]
         if k == "sink":
             return self.v["sinks"][t[1]]["coq"]
+        if k == "res":
+            return "(%s + %s)" % (self.coq_ty(t[1]), self.v["result"]["err"])
         return "_"
 
     # -- monad helpers -------------------------------------------------------
@@ -254,6 +261,8 @@ class Emitter:
                 e = e.e
             elif e.kind == "mcall" and e.name in ("as_mut", "as_ref", "by_ref", "borrow_mut") and not e.args:
                 e = e.recv
+            elif e.kind == "mcall" and not e.args and e.name in self.v.get("transparent_places", ()):
+                e = e.recv
             else:
                 return None
 
@@ -272,6 +281,12 @@ class Emitter:
         if place.kind == "unary" and place.op in ("*", "&mut"):
             # `*p = ..`, and an argument `&mut place` written back after a call
             return self.write_place(place.e, term, env, k)
+        if place.kind == "unary" and place.op == "&mut":
+            # `&mut place` handed to a `&mut` parameter: the callee's new value goes back to the place
+            return self.write_place(place.e, term, env, k)
+        if place.kind == "mcall" and not place.args and place.name in self.v.get("transparent_places", ()):
+            # vocabulary `transparent_places`: methods that hand out a write-through view of their receiver
+            return self.write_place(place.recv, term, env, k)
         if place.kind == "path" and len(place.segs) == 1:
             name = place.segs[0]
             v = env.get(name)
@@ -566,6 +581,10 @@ class Emitter:
 
     def e_index(self, e, env, k):
         def k1(base, bty, env1):
+            hook = self.v.get("index", {}).get(bty[1] if bty[0] in ("struct", "enum") else bty[0])
+            if hook is not None:
+                # vocabulary `index`: {type name: callable(em, e, base term, base type, env, k)}
+                return hook(self, e, base, bty, env1, k)
             elt = bty[1] if bty[0] == "list" else UNKNOWN
             if e.idx.kind == "range":
                 def with_lo(lo, env2):
@@ -696,6 +715,8 @@ class Emitter:
         ty = next((t for _, t, _ in rec if t not in (UNKNOWN, ("never",))), rec[0][1])
         for _, t, _ in rec:
             if t[0] == "opt" and ty[0] == "opt" and ty[1] == UNKNOWN:
+                ty = t
+            if t[0] == "res" and ty[0] == "res" and ty[1] == UNKNOWN:
                 ty = t
         if not diverged and not self.pure_mode and "None (* no arm" not in code:
             # every branch falls through: the branching statement is an expression yielding the
@@ -903,12 +924,23 @@ class Emitter:
         if k == "ppath":
             return True
         if k == "ptstruct":
+            if self.payload_variant(p) is not None:
+                return all(x.kind in ("pwild", "pident") or (x.kind == "pref" and x.inner.kind in ("pwild", "pident")) for x in p.elems)
             return p.segs[-1] in ("Some", "Ok", "Err") and all(self.pat_is_ctor_like(x, UNKNOWN) for x in p.elems)
         if k == "ptuple":
             return all(self.pat_is_ctor_like(x, UNKNOWN) for x in p.elems)
         if k == "por":
             return all(self.pat_is_ctor_like(x, ty) for x in p.alts)
         return False
+
+    def payload_variant(self, p):
+        """(coq constructor, payload types) when the tuple-struct pattern names a data-carrying enum variant of the vocabulary"""
+        if len(p.segs) < 2:
+            return None
+        en = self.v.get("enums", {}).get(p.segs[-2])
+        if en is None:
+            return None
+        return en.get("payload", {}).get(p.segs[-1])
 
     def coq_pattern(self, p, ty, binds):
         """native Gallina pattern; binds collects (rust name, coq name, type)"""
@@ -931,9 +963,23 @@ class Emitter:
             if en is None or name not in en["variants"]:
                 raise EmitError("pattern path %s" % "::".join(p.segs))
             return en["variants"][name]
+        if k == "ptstruct" and self.payload_variant(p) is not None:
+            # vocabulary enums[..]["payload"]: {variant: (coq constructor, [payload types] | None)};
+            # None = the payload is only ever matched with wildcards, (coq arity given as an int)
+            ctor, ptys = self.payload_variant(p)
+            if isinstance(ptys, int):
+                if not all(x.kind == "pwild" for x in p.elems):
+                    raise EmitError("payload of %s can only be matched with `_`" % ctor)
+                return "(%s %s)" % (ctor, " ".join("_" for _ in range(ptys)))
+            if len(ptys) != len(p.elems):
+                raise EmitError("pattern %s: %d fields, the vocabulary models %d" % (ctor, len(p.elems), len(ptys)))
+            return "(%s %s)" % (ctor, " ".join(self.coq_pattern(x, t, binds) for x, t in zip(p.elems, ptys)))
         if k == "ptstruct":
             name = p.segs[-1]
             inner = ty[1] if ty[0] == "opt" else UNKNOWN
+            if ty[0] == "res" and name in ("Ok", "Err"):
+                inner = ty[1] if name == "Ok" else ("coq", self.v["result"]["err"])
+                name = "inl" if name == "Ok" else "inr"
             return "(%s %s)" % (name, " ".join(self.coq_pattern(x, inner, binds) for x in p.elems))
         if k == "ptuple":
             tys = ty[1] if ty[0] == "tuple" and len(ty[1]) == len(p.elems) else [UNKNOWN] * len(p.elems)
@@ -1022,6 +1068,8 @@ class Emitter:
                     out.append("end")
                     return "\n".join(out)
                 return self.join_branches(env1, k, build)
+            if len(comps) == 1 and tys[0][0] == "res":
+                return self.join_branches(env1, k, lambda kk: self.match_result(e, terms[0], tys[0], env1, kk))
             # if-chain
             def build(kk):
                 def arm(j):
@@ -1068,6 +1116,46 @@ class Emitter:
                     ts2.append(n)
             return "".join(pre) + with_scrut(ts2, tys, env1)
         return self.exprs(comps, env, k_sc)
+
+    def match_result(self, e, term, ty, env, kk):
+        """match on an io::Result whose arms carry literals / guards: `match r with inl v => if-chain | inr v => if-chain end`"""
+        errty = ("enum", self.v["result"]["enum"]) if self.v["result"].get("enum") else ("coq", self.v["result"]["err"])
+
+        def side(tag, inner):
+            v = self.fresh("v")
+
+            def arm(j):
+                if j == len(e.arms):
+                    return "None (* no arm matches: unreachable in Rust (exhaustive match) *)"
+                p, g, body = e.arms[j]
+                while p.kind == "pref":
+                    p = p.inner
+                binds = []
+                tests = []
+                if p.kind == "ptstruct" and p.segs[-1] in ("Ok", "Err") and len(p.elems) == 1:
+                    if p.segs[-1] != tag:
+                        return arm(j + 1)
+                    tt = self.pat_test(p.elems[0], v, inner, binds)
+                    if tt is not None:
+                        tests.append(tt)
+                elif p.kind != "pwild":
+                    raise EmitError("pattern %s in a match on a Result" % p.kind)
+                env2 = env
+                for rn, cn, t, mut in binds:
+                    env2 = env2.bind(rn, cn, t, mut)
+                if g is not None:
+                    pg = self.try_pure(g, env2)
+                    if pg is None:
+                        raise EmitError("match guard that can panic")
+                    tests.append(pg[0])
+                bcode = self.expr(body, env2, kk)
+                if not tests:
+                    return bcode
+                return "if %s then\n%s\nelse\n%s" % (" && ".join(tests), ind(bcode), arm(j + 1))
+            return v, arm(0)
+        vo, co = side("Ok", ty[1])
+        ve, ce = side("Err", errty)
+        return "match %s with\n| inl %s =>\n%s\n| inr %s =>\n%s\nend" % (term, vo, ind(co, 4), ve, ind(ce, 4))
 
     # -- calls ---------------------------------------------------------------
     def call_shape(self, shape, self_place, args, env, k):
@@ -1119,6 +1207,10 @@ class Emitter:
         if f.kind != "path":
             raise EmitError("call of a non-path expression")
         name = f.segs[-1]
+        if len(f.segs) == 1 and name in ("Ok", "Err") and self.v.get("result"):
+            if name == "Ok":
+                return self.expr(e.args[0], env, lambda t, ty, env1: k("(inl %s)" % t, ("res", ty), env1))
+            return self.expr(e.args[0], env, lambda t, ty, env1: k("(inr %s)" % t, ("res", UNKNOWN), env1))
         if len(f.segs) == 1 and name in ("Some", "Ok"):
             return self.expr(e.args[0], env, lambda t, ty, env1: k("(Some %s)" % t, ("opt", ty), env1))
         key = "::".join(f.segs[-2:]) if len(f.segs) >= 2 else name
@@ -1446,6 +1538,9 @@ class Emitter:
         return self.expr(it, env, k1)
 
     def e_for(self, e, env, k):
+        lz = self.lazy_iter_of(e.iter, env)
+        if lz is not None:
+            return self.for_lazy(e, lz, env, k)
         st = self.assigned(e.body, env)
         ret = self.has_return(e.body)
 
@@ -1488,6 +1583,107 @@ class Emitter:
                 v, ind(self.ctl.ret(env1, v, UNKNOWN), 4))
         return self.iter_source(e.iter, env, k_src)
 
+    # -- lazy iterators (vocabulary `lazy_iters`) ----------------------------------
+    # `for x in recv.method(args) { body }` where the iterator borrows `recv` mutably and advances it
+    # one element per `next` (StripBytes::strip_next): the loop is a fuelled while over
+    # (cursor, assigned variables incl. recv); every `next` threads recv through the vocabulary's
+    # step function  next : cursor -> recv -> option (option elt * cursor * recv).
+    # entry: {(type name, method): {"new": coq fn of the call's arguments -> cursor, "next": coq fn,
+    #                               "elt": element type}}
+    def lazy_iter_of(self, it, env):
+        tab = self.v.get("lazy_iters")
+        if not tab or it.kind != "mcall":
+            return None
+        root = self.place_root(it.recv)
+        rv = env.get(root) if root else None
+        if rv is None or it.recv.kind not in ("path",):
+            return None
+        tname = rv.ty[1] if rv.ty[0] in ("struct", "enum") else rv.ty[0]
+        ent = tab.get((tname, it.name))
+        if ent is None:
+            return None
+        return (ent, root, it)
+
+    def for_lazy(self, e, lz, env, k):
+        ent, root, it = lz
+        fuel = self.loop_fuel()
+        acc = self.assigned(e.body, env)
+        st = [n for n in env.vars if n in acc or n == root]
+        ret = self.has_return(e.body)
+
+        def k_args(ats, _tys, env1):
+            cur0 = "(%s %s)" % (ent["new"], " ".join(ats)) if ats else ent["new"]
+            cur = self.fresh("it")
+            if ent.get("enter"):
+                # what creating the iterator does to the receiver (extract_next: capture.reset())
+                r0 = self.fresh(env1.get(root).coq.rstrip("0123456789") or root)
+                return "let %s := (%s %s) in\n%s" % (r0, ent["enter"], env1.get(root).coq,
+                                                     k_loop(ats, cur0, cur, env1.rebind(root, r0)))
+            return k_loop(ats, cur0, cur, env1)
+
+        def k_loop(ats, cur0, cur, env1):
+            env2 = env1
+            stn = []
+            for n in st:
+                c = self.fresh(env1.get(n).coq.rstrip("0123456789") or n)
+                stn.append(c)
+                env2 = env2.rebind(n, c)
+            # (a variable of the body that shadows a loop variable must not leak into the loop state)
+            tup = lambda envx, cu: self.tuple_of([cu] + [self.restrict(envx, env2).get(n).coq for n in st])
+            nxt, brk = ("LNext", "LBreak") if ret else ("BNext", "BBreak")
+            o = self.fresh("o")
+            cur1 = self.fresh("it")
+            r1 = self.fresh(env2.get(root).coq.rstrip("0123456789") or root)
+            env3 = env2.rebind(root, r1)
+            x = self.fresh("x")
+            old = self.ctl
+            oldpm = self.pure_mode
+            self.pure_mode = 0
+            if ret:
+                retf = lambda envx, t, ty: "Some (LRet (%s, %s))" % (tup(envx, cur1), t)
+            else:
+                retf = lambda envx, t, ty: (_ for _ in ()).throw(EmitError("return inside a loop translated without return"))
+            self.ctl = Ctl(retf, lambda envx: "Some (%s %s)" % (brk, tup(envx, cur1)), lambda envx: "Some (%s %s)" % (nxt, tup(envx, cur1)))
+            try:
+                body = self.bind_pattern(e.pat, x, ent["elt"], env3,
+                                         lambda env4: self.expr(e.body, env4, lambda _t, _ty, envx: "Some (%s %s)" % (nxt, tup(envx, cur1))))
+            finally:
+                self.ctl = old
+                self.pure_mode = oldpm
+            step = "'(%s, %s, %s) <- %s %s %s ;;\nmatch %s with\n| None => Some (%s %s)\n| Some %s =>\n%s\nend" % (
+                o, cur1, r1, ent["next"], cur, env2.get(root).coq, o, brk, tup(env3, cur1), x, ind(body, 4))
+            fterm = "(fun '(%s) =>\n%s)" % (", ".join([cur] + stn), ind(step, 4))
+            init = self.tuple_of([cur0] + [env1.get(n).coq for n in st])
+            if self.pure_mode:
+                raise NeedsBind()
+
+            def after(envx, kk):
+                """rebind the loop variables from a fresh tuple pattern; kk(pattern, env)"""
+                names = [self.fresh("it")]
+                env5 = envx
+                for n in st:
+                    c = self.fresh(envx.get(n).coq.rstrip("0123456789") or n)
+                    names.append(c)
+                    env5 = env5.rebind(n, c)
+                return kk("(" + ", ".join(names) + ")", env5)
+            if not ret:
+                r = self.fresh("st")
+                return "%s <- while_fuel0 %s %s %s ;;\n%s" % (
+                    r, fuel, fterm, init, after(env1, lambda pat, env5: "let '%s := %s in\n%s" % (pat, r, k("tt", UNIT, env5))))
+            r = self.fresh("lr")
+            v = self.fresh("rv")
+            return "%s <- while_fuel %s %s %s ;;\nmatch %s with\n| inl %s\n| inr %s\nend" % (
+                r, fuel, fterm, init, r,
+                after(env1, lambda pat, env5: "%s =>\n%s" % (pat, ind(k("tt", UNIT, env5), 4))),
+                after(env1, lambda pat, env5: "(%s, %s) =>\n%s" % (pat, v, ind(self.ctl.ret(env5, v, UNKNOWN), 4))))
+        return self.exprs(it.args, env, k_args)
+
+    # a closure as a value (bound by `let`, handed to a vocabulary function): the state-passing
+    # function of closure_st; its type records the captured (assigned) variables
+    def e_closure(self, e, env, k):
+        ptys = [self.ty_of_ast(ty) if ty is not None else UNKNOWN for _p, ty in e.params]
+        return self.closure_st(e, ptys, env, lambda fterm, cap, env1: k(fterm, ("closure", tuple(cap), tuple(ptys)), env1))
+
     def e_while(self, e, env, k):
         return self.while_like(e.cond, e.body, env, k)
 
@@ -1496,6 +1692,9 @@ class Emitter:
 
     def while_like(self, cond, bodyblk, env, k):
         fuel = self.loop_fuel()
+        if callable(fuel):
+            fuel = fuel(env)      # a fuel expression over the variables' current Coq names
+        rs = bool(self.v.get("loop_ret_state"))   # opt-in: a `return` inside the loop carries the loop variables
         probe = N("block", stmts=[N("expr", e=cond, semi=True, attrs=[])] if cond is not None and cond.kind != "letcond" else
                   ([N("expr", e=cond.e, semi=True, attrs=[])] if cond is not None else []), tail=bodyblk)
         st = self.assigned(probe, env)
@@ -1512,7 +1711,7 @@ class Emitter:
         old = self.ctl
         oldpm = self.pure_mode
         self.pure_mode = 0
-        self.ctl = Ctl((lambda envx, t, ty: "Some (LRet %s)" % t) if ret else old.ret,
+        self.ctl = Ctl(((lambda envx, t, ty: "Some (LRet (%s, %s))" % (tup(envx), t)) if rs else (lambda envx, t, ty: "Some (LRet %s)" % t)) if ret else old.ret,
                        lambda envx: "Some (%s %s)" % (brk, tup(envx)), lambda envx: "Some (%s %s)" % (nxt, tup(envx)))
         try:
             run_body = lambda envb: self.expr(bodyblk, envb, lambda _t, _ty, envx: "Some (%s %s)" % (nxt, tup(envx)))
@@ -1536,12 +1735,24 @@ class Emitter:
         r = self.fresh("lr")
         s2 = self.fresh("st")
         v = self.fresh("rv")
+        if rs:
+            s3 = self.fresh("st")
+            return "%s <- while_fuel %s %s %s ;;\nmatch %s with\n| inl %s =>\n%s\n| inr (%s, %s) =>\n%s\nend" % (
+                r, fuel, fterm, init, r, s2, ind(self.unpack_state(st, s2, env, lambda env4: k("tt", UNIT, env4)), 4),
+                s3, v, ind(self.unpack_state(st, s3, env, lambda env4: self.ctl.ret(env4, v, UNKNOWN)), 4))
         return "%s <- while_fuel %s %s %s ;;\nmatch %s with\n| inl %s =>\n%s\n| inr %s =>\n%s\nend" % (
             r, fuel, fterm, init, r, s2, ind(self.unpack_state(st, s2, env, lambda env4: k("tt", UNIT, env4)), 4),
             v, ind(self.ctl.ret(env, v, UNKNOWN), 4))
 
     def e_try(self, e, env, k):
         def k1(t, ty, env1):
+            if ty[0] == "res":
+                if self.pure_mode:
+                    raise NeedsBind()
+                x = self.fresh("q")
+                er = self.fresh("err")
+                return "match %s with\n| inl %s =>\n%s\n| inr %s =>\n%s\nend" % (
+                    t, x, ind(k(x, ty[1], env1), 4), er, ind(self.ctl.ret(env1, "(inr %s)" % er, ("res", UNKNOWN)), 4))
             if ty[0] != "opt":
                 raise EmitError("? on %r" % (ty,))
             if self.pure_mode:
